@@ -219,6 +219,9 @@ func (x *Exec) havocCall(st *State, sig *types.Signature, hint string) Val {
 	for _, t := range st.private {
 		keeps = append(keeps, kept{t, Select(vc.heapGet(st, t.key, t.sort), t.ref)})
 	}
+	for _, t := range x.lateTargets(st) {
+		keeps = append(keeps, kept{t, Select(vc.heapGet(st, t.key, t.sort), t.ref)})
+	}
 	vc.epochSeq++
 	st.epoch = vc.epochSeq
 	st.heap = map[string]Term{}
@@ -318,6 +321,11 @@ func (x *Exec) applyContract(fr *frame, st *State, fc *FuncContract, sig *types.
 	pre := st.clone()
 	env := &SpecEnv{x: x, st: pre, old: pre, vars: vars, inCall: true, pkg: x.eng.pkgByPath(fc.Pkg), pol: -1}
 	for j, r := range fc.Requires {
+		if x.fc != nil && x.fc.Opts["no-callee-pre"] != "" {
+			// the function under verification does not establish (and does not get to assume) the
+			// preconditions of its callees: its own contract is about something else
+			break
+		}
 		t, err := x.evalBool(r.Expr, env)
 		if err != nil {
 			return Val{}, fmt.Errorf("%s:%d: requires of %s at call site: %w", r.File, r.Line, short, err)
